@@ -99,6 +99,9 @@ def blob(seed, size):
     return (base * (size // 509 + 1))[:size]
 
 
+DEST_PREFIX = b"CALLER-HEADER:0123456789abcdef\n" * 3
+
+
 def filled(content, fill):
     """file contents with long runs of NUL bytes (sparse files, zeroed images): 'zeros' = nothing else, 'zerotail' = the last two thirds, 'holes' = every other 4 KiB block"""
     if not fill or not content:
@@ -367,6 +370,9 @@ class Runner(object):
                     f.write(b"STALE CONTENT OF AN EARLIER FILE " * 40)   # pull must replace it
         else:
             dest = io.BytesIO()
+            if step.get("dest_pos"):
+                # a stream the caller has already written to (a header of its own, an earlier file): the pull goes behind it
+                dest.write(DEST_PREFIX)
         return "pull", (step["path"], dest), {"progress_callback": cb}, (content, dest, cb, cb_calls)
 
     def judge_pull(self, step, ctx, out):
@@ -390,6 +396,10 @@ class Runner(object):
             return self._raised("C08", step, out)
         if isinstance(dest, io.BytesIO):
             got = dest.getvalue()
+            if step.get("dest_pos"):
+                if got[:len(DEST_PREFIX)] != DEST_PREFIX:
+                    return [self._v("C08", "destination-prefix-damaged", "pull(%s) into a stream that already held %d bytes changed them: %r" % (step["path"], len(DEST_PREFIX), got[:24]))]
+                got = got[len(DEST_PREFIX):]
         elif os.path.exists(dest):
             got = open(dest, "rb").read()
         else:
